@@ -66,10 +66,14 @@ impl Packet {
         let packet_type = fixed_header.packet_type()?;
 
         if fixed_header.remaining_len == 0 {
-            // no payload packets, Disconnect still has a bit more info
+            // no payload packets; a DISCONNECT without reason code is a normal disconnection
             return match packet_type {
                 PacketType::PingReq => Ok(Packet::PingReq(PingReq)),
                 PacketType::PingResp => Ok(Packet::PingResp(PingResp)),
+                PacketType::Disconnect => Ok(Packet::Disconnect(Disconnect::read(
+                    fixed_header,
+                    packet.freeze(),
+                )?)),
                 _ => Err(Error::PayloadRequired),
             };
         }
